@@ -527,6 +527,13 @@ func randNotif(r *vh.Rand, known [][]string) Op {
 		var g *GPath
 		if !r.Chance(1, 20) {
 			g = randGPath(r, ns)
+			// target / origin inside an update or delete path are not indexed
+			if r.Chance(1, 12) {
+				g.Origin = "oc"
+			}
+			if r.Chance(1, 12) {
+				g.Target = "dev9"
+			}
 		}
 		if r.Chance(1, 4) {
 			o.Dels = append(o.Dels, g)
